@@ -55,7 +55,31 @@ func (p *Prog) funcValueFrame(v ssa.Value, parent *frame) (*ssa.Function, *frame
 	v = strip(v, false)
 	switch x := v.(type) {
 	case *ssa.MakeClosure:
-		return p.closureFrame(x, parent)
+		fn, fr := p.closureFrame(x, parent)
+		// a closure that only forwards to a module function (func() { s.releasePartition(p) }) is that function, bound
+		// to the forwarded arguments
+		if fn != nil && fr != nil && len(fn.Blocks) == 1 {
+			var only *ssa.Call
+			thin := true
+			for _, ins := range fn.Blocks[0].Instrs {
+				switch y := ins.(type) {
+				case *ssa.Call:
+					if only != nil {
+						thin = false
+					}
+					only = y
+				case *ssa.UnOp, *ssa.FieldAddr, *ssa.Return, *ssa.DebugRef, *ssa.ChangeType, *ssa.MakeInterface:
+				default:
+					thin = false
+				}
+			}
+			if thin && only != nil {
+				if g := only.Call.StaticCallee(); g != nil && p.InModule(g) && g.Blocks != nil {
+					return p.unwrap(g), callFrame(g, only.Call.Args, fr)
+				}
+			}
+		}
+		return fn, fr
 	case *ssa.Function:
 		return p.unwrap(x), &frame{env: map[ssa.Value]ssa.Value{}, parent: parent}
 	case *ssa.Call:
